@@ -208,6 +208,10 @@ class RunResult:
         def step():
             owner = machine._verif_owner
             owner.steps += 1
+            pc = machine._reg.pc
+            if not (isinstance(pc, int) and 0 <= pc < len(machine._program)) \
+                    and owner.bad_pc is None:
+                owner.bad_pc = pc       # control left the loaded image
             if owner.steps > owner.budget:
                 owner.budget_exhausted = True
                 machine.stop()
